@@ -612,7 +612,7 @@ pub fn sync_after(w: &mut World, loaded_proj: &Project, inv: &RInv, out: &ROut) 
     };
     for (_, e) in &oks {
         match first_fail_ns {
-            Some(t) if e.ns + 50_000_000 >= t => {
+            Some(t) if e.ns + 250_000_000 >= t => {
                 w.uncertain.insert(e.step.clone());
             }
             _ => {
